@@ -350,7 +350,9 @@ def fresh_jobs(ctx, thorough, rnd):
     out += compile_fresh(ctx, "real2025b", long, 1995, 2040, (lambda n: n) if thorough else (lambda n: rnd.sample(n, 40)), thorough)
     objs = tzgen.systematic_sources(False)
     if not thorough:
-        objs = rnd.sample(objs, 110)
+        # always the sources whose abbreviations have the maximal length (the two implementations size their buffers separately)
+        keep = [o for o in objs if "six-character" in o["label"]]
+        objs = keep + rnd.sample([o for o in objs if o not in keep], 110 - len(keep))
     drawn = []
 
     @hypothesis.seed(ctx.seed)
